@@ -37,6 +37,10 @@ def read_view(kind, obj):
         ok &= int(round(float(obj[-1].x))) == x[-1] and int(round(float(obj[0].x))) == x[0] and int(round(float(obj[-n].x))) == x[0]
         ok &= ints([nd.x for nd in obj[1:]]) == x[1:] and ints([nd.x for nd in obj[:-1]]) == x[:-1] and ints([nd.x for nd in obj]) == x
         ok &= ints(obj["x"]) == x and ints(obj.xyz()[:, 0]) == x and len(obj.id()) == n
+        kept = list(obj)                       # handles obtained by iteration and read only afterwards (each refers to its own node)
+        ok &= ints([h.x for h in kept]) == x and ints([h.type for h in kept]) == ty
+        pairs = list(zip(obj, obj[1:]))
+        ok &= all(int(round(float(a.x))) == x[k] and int(round(float(b.x))) == x[k + 1] for k, (a, b) in enumerate(pairs))
         try:
             obj[n]; ok = False
         except IndexError:
